@@ -24,6 +24,8 @@ RULE = ('TLC over SolveT.tla with Outcomes={conv,moved,nanw,nans,exc}; every ter
         'failures, catch_first_error, period) vs reference loop. non-trivial = a fault or a rejection occurs in the execution')
 ASSUMPTIONS = c02.ASSUMPTIONS + [
     'excluded sub-alphabet: conv immediately after a replaced non-finite pass (statement ambiguous, DESIGN C06)',
+    'an `errors` value that names none of the four policies: the statement fixes the outcome by `errors`, so no policy outcome may be recorded; the check demands the ValueError the code documents, at whichever pass first needs a policy (an up-front ValueError would satisfy it too)',
+    'extended precision: finiteness is judged in the dtype the model was built with (np.longdouble where it is wider than float64)',
     'errors=<invalid>: only status alphabet, flag iff ".", termination are demanded',
 ]
 
@@ -74,6 +76,7 @@ def blocks(tier, seed):
     for i in range(len(NATURAL)):
         for K in (1, 2, 3):
             out.append({'kind': 'natural', 'i': i, 'K': K})
+    out.append({'kind': 'extended-precision'})
     return out
 
 
@@ -93,6 +96,11 @@ def run_nat_case(case):
             out.append(('invalid-errors:status-alphabet', "subset of '-.FES'", st, 'status outside the alphabet'))
         if (res == 'True') != (str(a.status[t]) == '.'):
             out.append(('invalid-errors:flag', 'True iff "."', [res, str(a.status[t])], 'solved flag inconsistent with status'))
+        # an `errors` value that names no policy is refused with ValueError at the pass that first needs a policy - whichever pass that is
+        # (also the last permitted one): no policy's status is recorded in its place
+        ref = refsolve.ref_loop(b, t, **kw)
+        if ref.result == 'ValueError' and res != 'ValueError':
+            out.append(('invalid-errors:served', 'ValueError', [res, str(a.status[t]), int(a.iterations[t])], 'a fault under an errors value that names no policy was served as if a policy applied'))
         return out, False, (res, str(a.status[t]))
     ref = refsolve.ref_loop(b, t, **kw)
     if ref.ambiguous:
@@ -141,8 +149,58 @@ def run_natural(block, tier, acc):
     acc.sample({'kind': 'natural', 'script': NATURAL[i][1], 'K': K}, limit=2)
 
 
+_LONG_MODEL = None
+
+
+@robust()
+def run_long_case(case):
+    """A model built with dtype=np.longdouble whose check values are finite but beyond the largest float64: finite is judged in
+    the model's own arithmetic, so no policy ever sees a fault (where the platform has no wider type the family is empty)."""
+    global _LONG_MODEL
+    if _LONG_MODEL is None:
+        _LONG_MODEL = fsic.build_model(fsic.parse_model('Y = Y * {g} + X'))
+    m = _LONG_MODEL(range(4), dtype=np.longdouble)
+    big = np.longdouble(10) ** case['exponent']
+    m.Y = big
+    m.g = np.longdouble(case['g'])
+    m.X = 0
+    res, cause, _ = refsolve.call_outcome(m.solve_t, 2, max_iter=case['max_iter'], min_iter=case['min_iter'], tol=1e-6, failures='ignore',
+                                          errors=case['errors'], catch_first_error=case['cfe'])
+    first = max(1, case['min_iter'])
+    if case['g'] == 1 and first <= case['max_iter']:
+        want = ('True', '.', first)
+    else:
+        want = ('False', 'F', case['max_iter'])
+    got = (res, str(m.status[2]), int(m.iterations[2]))
+    if got != want:
+        return [('extended-precision:errors=%s' % case['errors'], want, got, 'finite check values beyond the float64 range are treated as a fault')]
+    return []
+
+
+def run_long(acc, tier):
+    if not (np.finfo(np.longdouble).max > np.finfo(np.float64).max):
+        acc.n('no_extended_precision_on_this_platform')
+        return
+    for exponent in (300, 400, 4000):
+        for g in (1, 0.5):
+            for errors in ('raise', 'skip', 'ignore', 'replace'):
+                for cfe in (True, False):
+                    for max_iter in (1, 3):
+                        for min_iter in (0, 2):
+                            if min_iter > max_iter:
+                                continue
+                            case = dict(kind='extended-precision', exponent=exponent, g=g, errors=errors, cfe=cfe, max_iter=max_iter, min_iter=min_iter)
+                            acc.evaluations += 1
+                            acc.nontrivial += 1
+                            for key, exp, obs, what in run_long_case(case):
+                                acc.violation(key, case, exp, obs, what)
+
+
 def run_block(block, tier, seed):
     acc = Acc()
+    if block['kind'] == 'extended-precision':
+        run_long(acc, tier)
+        return acc
     if block['kind'] == 'traces':
         c02.run_traces(block, tier, acc)
     else:
@@ -153,6 +211,8 @@ def run_block(block, tier, seed):
 def run_one(case):
     if case['kind'] == 'trace':
         return c02.run_one(case)
+    if case['kind'] == 'extended-precision':
+        return run_long_case(case)
     return run_nat_case(case)[0]
 
 
